@@ -195,9 +195,9 @@ theorem genLoop_accepts (mask : Nat) (fixed : Bool) :
     have hpermseg : ∀ s ∈ seg, s.id &&& mask ≠ 0 → Permitted s :=
       fun x hx => hperm x (by rw [htodo]; exact List.mem_append_left _ hx)
     rw [htodo, unitsSize_append] at hfit
-    obtain ⟨he, hr, hlen⟩ := insertSliced_accepts mask fixed seg hwfseg hpermseg pLeft 0 0 L (Nat.zero_le _) hoseg (by omega)
-    obtain ⟨us0, h1, _, h3, _, _, _⟩ := insertSliced_ok mask fixed seg hwfseg pLeft 0 0 he hr
-    have hpl := insertSliced_pLeft mask fixed seg hwfseg pLeft 0 0 he hr
+    obtain ⟨he, hr, hlen⟩ := insertSliced_accepts mask fixed seg hwfseg hpermseg pLeft (segStart L) 0 L (segStart_le L) hoseg (by omega)
+    obtain ⟨us0, h1, _, h3, _, _, _⟩ := insertSliced_ok mask fixed seg hwfseg pLeft (segStart L) 0 he hr
+    have hpl := insertSliced_pLeft mask fixed seg hwfseg pLeft (segStart L) 0 he hr
     rw [he]
     try simp only []
     rw [if_neg (by simp [hr])]
@@ -227,7 +227,7 @@ theorem genLoop_accepts (mask : Nat) (fixed : Bool) :
         · cases h
         · injection h with ha hb; rw [hb]; exact ho
       simp only [unitsSize, hmaskraw, if_true, Nat.zero_add] at hfit
-      obtain ⟨o, du', us1, hrec, ho, holen, hgood1⟩ := ih (insertSliced mask fixed pLeft 0 0 seg).pLeft ll rest'
+      obtain ⟨o, du', us1, hrec, ho, holen, hgood1⟩ := ih (insertSliced mask fixed pLeft (segStart L) 0 seg).pLeft ll rest'
         (by rw [htodo, List.length_append, List.length_cons] at hfu; omega)
         (fun x hx => hwf x (by rw [htodo]; simp [hx]))
         (fun x hx => hperm x (by rw [htodo]; simp [hx]))
